@@ -319,4 +319,296 @@ structure PulsesOk (frameLen : Nat) (pulses : List Int) : Prop where
   len : pulses.length = frameLen
   abs : ∀ p ∈ pulses, -127 ≤ p ∧ p ≤ 127
 
+
+/-! ## A whole SILK payload: silk_Encode's symbol layer (enc_API.c:344-397, 463-539)
+
+  One call of `silk_Encode` per 10/20 ms frame; the first (`nFramesEncoded == 0`) writes the header
+  placeholder, the LBRR flags and the LBRR data of the previous packet, every call writes (stereo) the
+  predictor and the mid-only flag and then one frame per coded channel, the last call patches the
+  VAD/LBRR-flag bits into the placeholder.  Inputs are what the signal-processing part has decided:
+  VAD flags, LBRR flags and data, indices and pulses of every frame, stereo predictor indices and
+  mid-only flags.  The side channel of frame `i` is coded iff `mid_only_flags[i] == 0`
+  (enc_API.c:495 `channelRate_bps > 0`; stereo_LR_to_MS.c:154-155,193-195 set the side rate to 0 exactly
+  when the flag is set and to at least 1 otherwise). -/
+
+/-- `ec_prevSignalType`, `ec_prevLagIndex` of one channel (encode_indices.c:147,174). -/
+structure EcPrev where
+  sig : Nat := 0
+  lag : Int := 0
+  deriving Repr, DecidableEq, Inhabited
+
+/-- The update at the end of `silk_encode_indices`. -/
+def EcPrev.upd (p : EcPrev) (ix : Indices) : EcPrev :=
+  { sig := ix.signalType, lag := if ix.signalType = 2 then ix.lagIndex else p.lag }
+
+/-- Indices and pulses of one frame. -/
+structure FrameIn where
+  ix : Indices
+  pulses : List Int
+  deriving Repr, Inhabited
+
+/-- What the encoder state of one channel holds for the packet being written. -/
+structure ChanIn where
+  vad : List Nat            -- VAD_flags[i], i < nFramesPerPacket
+  lbrrFlags : List Nat      -- LBRR_flags[i] (LBRR data of the previous packet)
+  lbrr : List FrameIn       -- indices_LBRR[i], pulses_LBRR[i]
+  frames : List FrameIn     -- indices, pulses of frame i (unused where the channel is not coded)
+  prev : EcPrev             -- ec_prevSignalType / ec_prevLagIndex when the packet starts
+  deriving Repr, Inhabited
+
+structure PacketIn where
+  ch0 : ChanIn
+  ch1 : ChanIn
+  predIx : List (List Nat)       -- sStereo.predIx[i] while frame i is coded
+  midOnly : List Nat             -- sStereo.mid_only_flags[i] while frame i is coded
+  lbrrPredIx : List (List Nat)   -- sStereo.predIx[i] when the header is written (left by the previous packet)
+  lbrrMidOnly : List Nat         -- sStereo.mid_only_flags[i] when the header is written
+  deriving Repr, Inhabited
+
+def PacketIn.ch (pk : PacketIn) (n : Nat) : ChanIn := if n = 0 then pk.ch0 else pk.ch1
+
+/-- The conditional-coding memory of both channels. -/
+structure EncSt where
+  p0 : EcPrev
+  p1 : EcPrev
+  deriving Repr, DecidableEq, Inhabited
+
+def EncSt.prev (s : EncSt) (n : Nat) : EcPrev := if n = 0 then s.p0 else s.p1
+def EncSt.setPrev (s : EncSt) (n : Nat) (p : EcPrev) : EncSt := if n = 0 then { s with p0 := p } else { s with p1 := p }
+
+/-- The operations of one frame, `[]` where a `celt_assert` of `silk_encode_indices` would abort (excluded by `IxOk`). -/
+def frameOps (rate : Rate) (nbSubfr : Nat) (lbrr : Bool) (cc : Nat) (p : EcPrev) (f : FrameIn) : List Op :=
+  match encodeFrame rate nbSubfr lbrr cc p.sig p.lag f.ix f.pulses with
+  | .ok a => a
+  | _ => []
+
+/-- `silk_stereo_encode_pred`, `[]` where a `celt_assert` would abort (excluded by `PredOk`). -/
+def predOps (ix : List Nat) : List Op :=
+  match encStereoPred ix with
+  | .ok a => a
+  | _ => []
+
+/-- `LBRR_symbol` (enc_API.c:356-359): `flags[0] | flags[1] << 1 | …`. -/
+def lbrrSymbol : List Nat → Nat
+  | [] => 0
+  | f :: fs => f + 2 * lbrrSymbol fs
+
+/-- The LBRR flags of one channel (enc_API.c:355-364). -/
+def lbrrSymOps (nfpp : Nat) (flags : List Nat) : List Op :=
+  if lbrrSymbol (flags.take nfpp) ≠ 0 ∧ nfpp > 1 then
+    [ic (lbrrSymbol (flags.take nfpp) - 1) ([silk_LBRR_flags_2_iCDF, silk_LBRR_flags_3_iCDF].getD (nfpp - 2) [])]
+  else []
+
+/-- `condCoding` of LBRR frame `i` (enc_API.c:380-384). -/
+def lbrrCondCoding (c : ChanIn) (i : Nat) : Nat := if i > 0 ∧ c.lbrrFlags.getD (i - 1) 0 ≠ 0 then 2 else 0
+
+/-- LBRR data of frame `i`, channel `n` (enc_API.c:369-391). -/
+def lbrrOne (cfg : Cfg) (pk : PacketIn) (i n : Nat) (s : EncSt) : List Op × EncSt :=
+  if (pk.ch n).lbrrFlags.getD i 0 ≠ 0 then
+    ((if cfg.nCh = 2 ∧ n = 0 then
+        predOps (pk.lbrrPredIx.getD i []) ++
+        (if pk.ch1.lbrrFlags.getD i 0 = 0 then encMidOnly (pk.lbrrMidOnly.getD i 0) else [])
+      else []) ++
+     frameOps cfg.rate cfg.nbSubfr true (lbrrCondCoding (pk.ch n) i) (s.prev n)
+       ((pk.ch n).lbrr.getD i default),
+     s.setPrev n ((s.prev n).upd ((pk.ch n).lbrr.getD i default).ix))
+  else ([], s)
+
+/-- The channel loop of the LBRR data (enc_API.c:369). -/
+def lbrrChans (cfg : Cfg) (pk : PacketIn) (i : Nat) : List Nat → EncSt → List Op × EncSt
+  | [], s => ([], s)
+  | n :: ns, s =>
+    let r := lbrrOne cfg pk i n s
+    let rest := lbrrChans cfg pk i ns r.2
+    (r.1 ++ rest.1, rest.2)
+
+/-- The frame loop of the LBRR data (enc_API.c:368). -/
+def lbrrFrames (cfg : Cfg) (pk : PacketIn) : List Nat → EncSt → List Op × EncSt
+  | [], s => ([], s)
+  | i :: is, s =>
+    let r := lbrrChans cfg pk i (List.range cfg.nCh) s
+    let rest := lbrrFrames cfg pk is r.2
+    (r.1 ++ rest.1, rest.2)
+
+/-- `condCoding` of a regular frame (enc_API.c:480-489); `i` is the frame index in the packet. -/
+def encCondCoding (pk : PacketIn) (i n : Nat) : Nat :=
+  if i = 0 then 0 else if n > 0 ∧ pk.midOnly.getD (i - 1) 0 ≠ 0 then 1 else 2
+
+/-- Channel `n` of frame `i` (enc_API.c:463-468, 495-506). -/
+def frameChan (cfg : Cfg) (pk : PacketIn) (i n : Nat) (s : EncSt) : List Op × EncSt :=
+  if n = 0 ∨ pk.midOnly.getD i 0 = 0 then
+    (frameOps cfg.rate cfg.nbSubfr false (encCondCoding pk i n) (s.prev n) ((pk.ch n).frames.getD i default),
+     s.setPrev n ((s.prev n).upd ((pk.ch n).frames.getD i default).ix))
+  else ([], s)
+
+/-- One `silk_Encode` call behind the header: predictor, mid-only flag, the channels (enc_API.c:437-509). -/
+def frameCall (cfg : Cfg) (pk : PacketIn) (i : Nat) (s : EncSt) : List Op × EncSt :=
+  let head := if cfg.nCh = 2 then
+      predOps (pk.predIx.getD i []) ++ (if pk.ch1.vad.getD i 0 = 0 then encMidOnly (pk.midOnly.getD i 0) else [])
+    else []
+  let r0 := frameChan cfg pk i 0 s
+  if cfg.nCh = 2 then
+    let r1 := frameChan cfg pk i 1 r0.2
+    (head ++ r0.1 ++ r1.1, r1.2)
+  else (head ++ r0.1, r0.2)
+
+/-- The frames of the packet. -/
+def frameCalls (cfg : Cfg) (pk : PacketIn) : List Nat → EncSt → List Op × EncSt
+  | [], s => ([], s)
+  | i :: is, s =>
+    let r := frameCall cfg pk i s
+    let rest := frameCalls cfg pk is r.2
+    (r.1 ++ rest.1, rest.2)
+
+/-- The bits patched into the placeholder, first to last (enc_API.c:529-536): per channel the VAD flags
+    and `LBRR_flag = LBRR_symbol > 0`. -/
+def chanFlagBits (nfpp : Nat) (c : ChanIn) : List Nat :=
+  (List.range nfpp).map (fun i => c.vad.getD i 0) ++ [if lbrrSymbol (c.lbrrFlags.take nfpp) ≠ 0 then 1 else 0]
+
+def headerBits (cfg : Cfg) (pk : PacketIn) : List Nat :=
+  chanFlagBits cfg.nfpp pk.ch0 ++ (if cfg.nCh = 2 then chanFlagBits cfg.nfpp pk.ch1 else [])
+
+/-- `flags = (flags << 1) | bit` over the bits. -/
+def bitsWord : List Nat → Nat → Nat
+  | [], acc => acc
+  | b :: bs, acc => bitsWord bs (2 * acc + b)
+
+/-- Everything between the placeholder and the patch. -/
+def packetBody (cfg : Cfg) (pk : PacketIn) : List Op :=
+  let s0 : EncSt := { p0 := pk.ch0.prev, p1 := pk.ch1.prev }
+  let syms := lbrrSymOps cfg.nfpp pk.ch0.lbrrFlags ++ (if cfg.nCh = 2 then lbrrSymOps cfg.nfpp pk.ch1.lbrrFlags else [])
+  let l := lbrrFrames cfg pk (List.range cfg.nfpp) s0
+  let f := frameCalls cfg pk (List.range cfg.nfpp) l.2
+  syms ++ l.1 ++ f.1
+
+/-- The range-coder operations of a whole SILK payload. -/
+def packetOps (cfg : Cfg) (pk : PacketIn) : List Op :=
+  placeholder ((cfg.nfpp + 1) * cfg.nCh) ::
+    (packetBody cfg pk ++ [.patchInitial (bitsWord (headerBits cfg pk) 0) ((cfg.nfpp + 1) * cfg.nCh)])
+
+/-- Domain of `silk_stereo_encode_pred` (its `celt_assert`s; `ix[n][2] < 5` is what stereo_quant_pred produces). -/
+def PredOk (ix : List Nat) : Prop :=
+  ix.length = 6 ∧ ix.getD 0 0 < 3 ∧ ix.getD 1 0 < 5 ∧ ix.getD 2 0 < 5 ∧ ix.getD 3 0 < 3 ∧ ix.getD 4 0 < 5 ∧ ix.getD 5 0 < 5
+
+/-- The per-channel part of the encoder's domain: flags are flags, and every LBRR frame that is present is in the
+    domain of `silk_encode_indices( …, encode_LBRR = 1, … )` / `silk_encode_pulses`. -/
+structure ChanOk (cfg : Cfg) (c : ChanIn) : Prop where
+  vadLen : c.vad.length = cfg.nfpp
+  vadBits : ∀ v ∈ c.vad, v ≤ 1
+  lbrrLen : c.lbrrFlags.length = cfg.nfpp
+  lbrrBits : ∀ v ∈ c.lbrrFlags, v ≤ 1
+  lbrr : ∀ i, i < cfg.nfpp → c.lbrrFlags.getD i 0 ≠ 0 →
+    IxOk cfg.rate cfg.nbSubfr true (lbrrCondCoding c i) (c.lbrr.getD i default).ix ∧
+    PulsesOk (frameLength cfg.rate cfg.nbSubfr) (c.lbrr.getD i default).pulses
+
+/-- The domain of the payload writer: the configuration is one `silk_Encode` produces, every coded frame is in the
+    domain of `silk_encode_indices` / `silk_encode_pulses` with the VAD flag the header carries, the stereo indices
+    are in the domain of `silk_stereo_encode_pred`, and a mid-only flag is only set where the side channel's VAD
+    flag is clear (enc_API.c:463-466: `VAD_flags[1][i] = 0` whenever `mid_only_flags[i]` is set). -/
+structure PacketOk (cfg : Cfg) (pk : PacketIn) : Prop where
+  nCh : cfg.nCh = 1 ∨ cfg.nCh = 2
+  nfpp : 1 ≤ cfg.nfpp ∧ cfg.nfpp ≤ 3
+  nb : cfg.nbSubfr = 2 ∨ cfg.nbSubfr = 4
+  lost : cfg.lostFlag = 0
+  ch0 : ChanOk cfg pk.ch0
+  ch1 : cfg.nCh = 2 → ChanOk cfg pk.ch1
+  frames0 : ∀ i, i < cfg.nfpp →
+    IxOk cfg.rate cfg.nbSubfr (decide (pk.ch0.vad.getD i 0 ≠ 0)) (encCondCoding pk i 0) (pk.ch0.frames.getD i default).ix ∧
+    PulsesOk (frameLength cfg.rate cfg.nbSubfr) (pk.ch0.frames.getD i default).pulses
+  frames1 : cfg.nCh = 2 → ∀ i, i < cfg.nfpp → pk.midOnly.getD i 0 = 0 →
+    IxOk cfg.rate cfg.nbSubfr (decide (pk.ch1.vad.getD i 0 ≠ 0)) (encCondCoding pk i 1) (pk.ch1.frames.getD i default).ix ∧
+    PulsesOk (frameLength cfg.rate cfg.nbSubfr) (pk.ch1.frames.getD i default).pulses
+  pred : cfg.nCh = 2 → ∀ i, i < cfg.nfpp → PredOk (pk.predIx.getD i []) ∧ pk.midOnly.getD i 0 ≤ 1 ∧
+    (pk.ch1.vad.getD i 0 ≠ 0 → pk.midOnly.getD i 0 = 0)
+  lbrrPred : cfg.nCh = 2 → ∀ i, i < cfg.nfpp → pk.ch0.lbrrFlags.getD i 0 ≠ 0 →
+    PredOk (pk.lbrrPredIx.getD i []) ∧ pk.lbrrMidOnly.getD i 0 ≤ 1
+
+
+/-! ## What `silk_Decode` (C03's model, normal decoding) reports for such a payload
+
+  The same loops as above, producing C03's `Ev` records instead of operations: header flags, then per
+  LBRR / regular frame the stereo predictor, the mid-only flag, the indices (with the `condCoding`,
+  `ec_prevSignalType`, `ec_prevLagIndex` the decoder passes: the memory is handed over only where it is read)
+  and the pulses.  `ret i` is the `(rng, ec_tell)` pair reported when call `i` returns. -/
+
+def frameEvs (cfg : Cfg) (n fi lbrrN cc : Nat) (p : EcPrev) (f : FrameIn) : List Ev :=
+  [.indices n fi lbrrN cc cfg.rate cfg.nbSubfr (if cc = 2 then p.sig else 0) (if cc = 2 ∧ p.sig = 2 then p.lag else 0) f.ix,
+   .pulses f.ix.signalType f.ix.quantOffsetType (frameLength cfg.rate cfg.nbSubfr)
+     (pulsesView f.ix.signalType (frameLength cfg.rate cfg.nbSubfr) f.pulses)]
+
+/-- The predictor record for the indices `ix[2][3]` (stereo_decode_pred.c). -/
+def predEv (ix : List Nat) : Ev :=
+  .pred (stereoMk (5 * ix.getD 2 0 + ix.getD 5 0) (ix.getD 0 0) (ix.getD 1 0) (ix.getD 3 0) (ix.getD 4 0))
+
+def lbrrOneEvs (cfg : Cfg) (pk : PacketIn) (i n : Nat) (s : EncSt) : List Ev :=
+  if (pk.ch n).lbrrFlags.getD i 0 ≠ 0 then
+    (if cfg.nCh = 2 ∧ n = 0 then
+        predEv (pk.lbrrPredIx.getD i []) ::
+        (if pk.ch1.lbrrFlags.getD i 0 = 0 then [.midOnly (pk.lbrrMidOnly.getD i 0)] else [])
+      else []) ++
+    frameEvs cfg n i 1 (lbrrCondCoding (pk.ch n) i) (s.prev n) ((pk.ch n).lbrr.getD i default)
+  else []
+
+def lbrrChansEvs (cfg : Cfg) (pk : PacketIn) (i : Nat) : List Nat → EncSt → List Ev
+  | [], _ => []
+  | n :: ns, s => lbrrOneEvs cfg pk i n s ++ lbrrChansEvs cfg pk i ns (lbrrOne cfg pk i n s).2
+
+def lbrrFramesEvs (cfg : Cfg) (pk : PacketIn) : List Nat → EncSt → List Ev
+  | [], _ => []
+  | i :: is, s =>
+    lbrrChansEvs cfg pk i (List.range cfg.nCh) s ++ lbrrFramesEvs cfg pk is (lbrrChans cfg pk i (List.range cfg.nCh) s).2
+
+def frameChanEvs (cfg : Cfg) (pk : PacketIn) (i n : Nat) (s : EncSt) : List Ev :=
+  if n = 0 ∨ pk.midOnly.getD i 0 = 0 then
+    frameEvs cfg n i 0 (encCondCoding pk i n) (s.prev n) ((pk.ch n).frames.getD i default)
+  else []
+
+/-- Events of call `i` behind the header, without the final `ret`. -/
+def frameCallEvs (cfg : Cfg) (pk : PacketIn) (i : Nat) (s : EncSt) : List Ev :=
+  (if cfg.nCh = 2 then
+      predEv (pk.predIx.getD i []) :: (if pk.ch1.vad.getD i 0 = 0 then [.midOnly (pk.midOnly.getD i 0)] else [])
+    else []) ++
+  frameChanEvs cfg pk i 0 s ++
+  (if cfg.nCh = 2 then frameChanEvs cfg pk i 1 (frameChan cfg pk i 0 s).2 else [])
+
+/-- `LBRR_flags[0..3)` as the decoder stores them. -/
+def lbrr3 (nfpp : Nat) (fl : List Nat) : List Nat := (List.range 3).map (fun i => if i < nfpp then fl.getD i 0 else 0)
+
+/-- `LBRR_flag` as the encoder patches it. -/
+def lbrrFlagOf (nfpp : Nat) (fl : List Nat) : Nat := if lbrrSymbol (fl.take nfpp) ≠ 0 then 1 else 0
+
+def headerEvs (cfg : Cfg) (pk : PacketIn) : List Ev :=
+  .flags 0 pk.ch0.vad (lbrrFlagOf cfg.nfpp pk.ch0.lbrrFlags) (lbrr3 cfg.nfpp pk.ch0.lbrrFlags) ::
+    (if cfg.nCh = 2 then [.flags 1 pk.ch1.vad (lbrrFlagOf cfg.nfpp pk.ch1.lbrrFlags) (lbrr3 cfg.nfpp pk.ch1.lbrrFlags)] else [])
+
+/-- The operations of the header behind the placeholder: LBRR-flags symbols and LBRR data. -/
+def headerOps (cfg : Cfg) (pk : PacketIn) : List Op :=
+  lbrrSymOps cfg.nfpp pk.ch0.lbrrFlags ++ (if cfg.nCh = 2 then lbrrSymOps cfg.nfpp pk.ch1.lbrrFlags else []) ++
+  (lbrrFrames cfg pk (List.range cfg.nfpp) { p0 := pk.ch0.prev, p1 := pk.ch1.prev }).1
+
+/-- The conditional-coding memory when the regular frames start. -/
+def headerSt (cfg : Cfg) (pk : PacketIn) : EncSt :=
+  (lbrrFrames cfg pk (List.range cfg.nfpp) { p0 := pk.ch0.prev, p1 := pk.ch1.prev }).2
+
+/-- The conditional-coding memory before call `i`. -/
+def callSt (cfg : Cfg) (pk : PacketIn) (i : Nat) : EncSt :=
+  (frameCalls cfg pk (List.range i) (headerSt cfg pk)).2
+
+/-- The operations of call `i` (call 0 includes the header behind the placeholder). -/
+def callOps (cfg : Cfg) (pk : PacketIn) (i : Nat) : List Op :=
+  (if i = 0 then headerOps cfg pk else []) ++ (frameCall cfg pk i (callSt cfg pk i)).1
+
+/-- What the encoder has written when call `i` is complete (without the final patch). -/
+def prefixOps (cfg : Cfg) (pk : PacketIn) (i : Nat) : List Op :=
+  placeholder ((cfg.nfpp + 1) * cfg.nCh) :: ((List.range (i + 1)).map (callOps cfg pk)).flatten
+
+/-- Events of call `i`; `ret` is the `(rng, ec_tell)` it reports. -/
+def callEvs (cfg : Cfg) (pk : PacketIn) (i : Nat) (ret : Nat × Int) : List Ev :=
+  (if i = 0 then headerEvs cfg pk ++ lbrrFramesEvs cfg pk (List.range cfg.nfpp) { p0 := pk.ch0.prev, p1 := pk.ch1.prev } else []) ++
+  frameCallEvs cfg pk i (callSt cfg pk i) ++ [.ret ret.1 ret.2]
+
+/-- Everything `silk_Decode` reports for the payload. -/
+def packetEvs (cfg : Cfg) (pk : PacketIn) (ret : Nat → Nat × Int) : List Ev :=
+  ((List.range cfg.nfpp).map (fun i => callEvs cfg pk i (ret i))).flatten
+
 end Opus.SilkSymsEnc
